@@ -28,6 +28,8 @@ CLAIMED = {
             "2 bins per axis; classes 1D, 2D, 3D, the seven transformed classes, collection of 2; seven binning kinds; json text layer and open() are stubs (tree in = tree out)", "DESIGN.md 5/C08"),
     "C13": ("Bounded symbolic model checking of dtype inference (HistogramBase.__init__, h1 / h facades, calculate_*_frequencies), _coerce_dtype/set_dtype/_eval_dtype and the coercions in fill, fill_n, + - += -= * / normalize merge over all supported dtypes: after the operation h.dtype == frequencies.dtype == errors2.dtype, the dtype is numpy's promotion of the operands, values equal the exact reference (no truncation), an explicit dtype change is accepted iff lossless by the statement's rule (symbolic contents around the type limits and with symbolic fractional parts) and otherwise refused with nothing changed.",
             "2 bins 1D / 2x1 2D, one operation per instance (thorough: all dtype pairs); contents are symbolic integers, float weights/factors symbolic multiples of 1/4, so every value is exact in every float type (float16/32 rounding itself is outside R-mode)", "DESIGN.md 5/C13"),
+    "C18": ("Bounded symbolic model checking of one inductive step from an arbitrary valid state: for 1D (static int/float, adaptive) and 2D histograms with symbolic contents/errors2/missed, each call of a pool of ~50 valid and invalid public operations (incompatible / non-histogram operands, wrong data or weight shapes, invalid dtype / weight / axis / index / merge amount, over-subtraction, negative factors, bad setters, collection misuse) with symbolic arguments leaves the histogram well-formed (matching shapes, errors2 >= 0, contents >= 0), is refused where the statement says so, and if it raises leaves every content per bin interval, error2 and missed count term-equal to before. Histories are sequences of such steps; thorough adds all two-step histories.",
+            "2 bins 1D, 2x2 2D; one step (quick), two steps (thorough)", "DESIGN.md 5/C18"),
 }
 
 REASONS_NOT_YET = "check not built yet (work in progress; see DESIGN.md section 8 build order)"
